@@ -257,70 +257,38 @@ def run(ctx):
             else:
                 replay_seq = rc["ops"] if isinstance(rc, dict) else rc
                 nseq, corpus = 0, []
-        dist = {"ops": 0, "grow_or_overwrite": 0, "shapes": {}, "crash": 0, "op_kinds": {}}
+        dist = {"ops": 0, "grow_or_overwrite": 0, "shapes": {}, "crash": 0, "op_kinds": {}, "blocks": {},
+                "lock_discipline_calls_checked": 0}
         distinct = set()
         for exe, name, meta in flavours:
-            seqs = [[l.replace("META", str(meta)) for l in s] for s in corpus]
+            # named blocks, processed in this order; the deterministic core (the same in every run,
+            # whatever VERIF_SEED is) comes before the random sequences
+            blocks = [("corpus", [[l.replace("META", str(meta)) for l in s] for s in corpus])]
             if replay_seq:
                 # a replay re-runs exactly the recorded op sequence (create lines re-targeted to this flavour)
-                seqs.append([" ".join(l.split()[:3] + [str(meta)]) if l.startswith("create ") else l
-                             for l in replay_seq])
+                blocks.append(("replay", [[" ".join(l.split()[:3] + [str(meta)]) if l.startswith("create ") else l
+                                           for l in replay_seq]]))
+            else:
+                full = name.startswith("assert") or ctx.tier == "thorough"
+                blocks += core_blocks(meta, full)
+            rnd = []
             for i in range(nseq):
                 shape = rng.choices(["tiny", "fixed", "chunk", "prod"], [50, 15, 25, 10])[0]
                 dist["shapes"][shape] = dist["shapes"].get(shape, 0) + 1
-                seqs.append(gen_seq(rng, meta, rng.randrange(4, 40 if shape != "prod" else 14), shape))
+                rnd.append(gen_seq(rng, meta, rng.randrange(4, 40 if shape != "prod" else 14), shape))
+            blocks.append(("random", rnd))
             if ctx.tier == "thorough" and name.startswith("assert") and not replay_seq:
-                seqs += exhaustive_small(meta)
-            # every sequence starts from nothing (both buffers gone, first buffer selected): the three
-            # runs stay in step even when the implementation's process had to be restarted after a crash
-            seqs = [s if s and s[0] == "reset" else ["reset"] + s for s in seqs]
-            impl = run_batch([exe], seqs, env=dict(os.environ, ASAN_OPTIONS="detect_leaks=0"))
-            # model and spec both get the op lines annotated with the implementation's own answer
-            # (`@ RET SIZE`): the spec takes them as the choices the property leaves open, the model
-            # FOLLOWS the observed capacity (growth policy = parameter of the model, learnt
-            # behaviourally; an inadmissible choice makes model and spec disagree with the code)
-            text = annotate(seqs, [a for a, _ in impl])
-            mlines = ctx.model("cbuf", text, args=["model"])
-            slines = ctx.model("cbuf", text, args=["spec"])
-            pos = 0
-            for s, (ans, crash) in zip(seqs, impl):
-                m = mlines[pos:pos + len(s)]
-                sp = slines[pos:pos + len(s)]
-                pos += len(s)
-                cov["evaluations"] += 1
-                dist["ops"] += len(s)
-                for l, a_ in zip(s, ans):
-                    k = l.split()[0]
-                    dist["op_kinds"][k] = dist["op_kinds"].get(k, 0) + 1
-                    if a_ in ("bad-op", "no-cbuf"):
-                        dist["refused_lines"] = dist.get("refused_lines", 0) + 1
-                if nontrivial(ans):
-                    key = hash("\n".join(s))
-                    if key not in distinct:
-                        distinct.add(key)
-                        dist["grow_or_overwrite"] += 1
-                if len(cov["samples"]) < 3 and len(s) < 12 and nontrivial(ans):
-                    cov["samples"].append({"flavour": name, "ops": s, "impl": ans})
-                if crash is not None:
-                    dist["crash"] += 1
-                    k = len(ans)
-                    ctx.offender("crash", "cbuf.c aborts (assertion/sanitizer/fatal) in flavour %s at op %d: %s" %
-                                 (name, k, crash[-600:]),
-                                 {"flavour": name, "ops": s[:k + 1], "impl": ans, "spec": sp[:k + 1]})
+                blocks.append(("exhaustive-small", exhaustive_small(meta)))
+            found = 0
+            for bname, seqs in blocks:
+                if not seqs:
                     continue
-                if ans != sp:
-                    k = next(i for i in range(len(s)) if ans[i] != sp[i])
-                    small = shrink(ctx, exe, s, "spec")
-                    ctx.offender("fifo-mismatch:" + s[k].split()[0],
-                                 "cbuf.c differs from the FIFO specification at op `%s`: impl `%s` spec `%s`" %
-                                 (s[k][:80], ans[k][:120], sp[k][:120]),
-                                 {"flavour": name, "ops": small, "first_diff_op_in_original": s[k][:200],
-                                  "impl": ans[k], "spec": sp[k]})
-                if ans != m:
-                    k = next(i for i in range(len(s)) if ans[i] != m[i])
-                    ctx.disagreement("cbuf model vs cbuf.c (%s)" % name,
-                                     "op `%s`: impl `%s` model `%s`" % (s[k][:80], ans[k][:120], m[k][:120]),
-                                     shrink(ctx, exe, s, "model"))
+                if found >= 3 and bname != "random":
+                    # concrete replays exist already: do not grind through thousands of further
+                    # deterministic sequences of a tree that fails on most of them
+                    dist["blocks"][bname + "/" + name] = "skipped after %d findings" % found
+                    continue
+                found += process_block(ctx, cov, dist, distinct, exe, name, bname, seqs)
         cov["distinct_nontrivial"] = len(distinct)
         cov["distribution"] = dist
         cov["traces_validated_against_impl"] = cov["evaluations"]
@@ -334,6 +302,283 @@ def run(ctx):
                       "Gen/Consts.lean regenerated from /repo (CBUF_CHUNK, mode codes)",
                       "harness/cbuf_harness.c, vlib/, gcc, ASan/UBSan"],
         checker_cmd="lake build PdshVerif.Props.C13 && #print axioms on every theorem of Props/C13.lean")
+
+
+def process_block(ctx, cov, dist, distinct, exe, name, bname, seqs):
+    """run one block of sequences on the implementation, the model and the spec; returns the
+    number of findings (offenders and disagreements) it produced"""
+    found = 0
+    # every sequence starts from nothing (both buffers gone, first buffer selected): the three
+    # runs stay in step even when the implementation's process had to be restarted after a crash
+    seqs = [s if s and s[0] == "reset" else ["reset"] + s for s in seqs]
+    impl = run_batch([exe], seqs, env=dict(os.environ, ASAN_OPTIONS="detect_leaks=0"))
+    # model and spec both get the op lines annotated with the implementation's own answer
+    # (`@ RET SIZE`): the spec takes them as the choices the property leaves open, the model
+    # FOLLOWS the observed capacity (growth policy = parameter of the model, learnt
+    # behaviourally; an inadmissible choice makes model and spec disagree with the code)
+    text = annotate(seqs, [a for a, _ in impl])
+    mlines = ctx.model("cbuf", text, args=["model"])
+    slines = ctx.model("cbuf", text, args=["spec"])
+    dist["blocks"][bname + "/" + name] = len(seqs)
+    pos = 0
+    for s, (ans, crash) in zip(seqs, impl):
+        m = mlines[pos:pos + len(s)]
+        sp = slines[pos:pos + len(s)]
+        pos += len(s)
+        cov["evaluations"] += 1
+        dist["ops"] += len(s)
+        for l, a_ in zip(s, ans):
+            k = l.split(None, 1)[0]
+            dist["op_kinds"][k] = dist["op_kinds"].get(k, 0) + 1
+            if a_ in ("bad-op", "no-cbuf"):
+                dist["refused_lines"] = dist.get("refused_lines", 0) + 1
+        # every answer line with a stat tail stands for 8 public calls whose locking was checked
+        dist["lock_discipline_calls_checked"] += 8 * sum(1 for a_ in ans if " | " in a_)
+        if nontrivial(ans):
+            key = hash("\n".join(s))
+            if key not in distinct:
+                distinct.add(key)
+                dist["grow_or_overwrite"] += 1
+        if len(cov["samples"]) < 3 and len(s) < 12 and nontrivial(ans) and bname == "random":
+            cov["samples"].append({"flavour": name, "ops": s, "impl": ans})
+        if crash is not None:
+            dist["crash"] += 1
+            found += 1
+            k = len(ans)
+            ctx.offender("crash", "cbuf.c aborts (assertion/sanitizer/fatal) in flavour %s at op %d: %s" %
+                         (name, k, crash[-600:]),
+                         {"flavour": name, "block": bname, "ops": s[:k + 1], "impl": ans, "spec": sp[:k + 1]})
+            continue
+        lk = next((i for i, a_ in enumerate(ans) if "!LOCK:" in a_), None)
+        if lk is not None:
+            found += 1
+            ctx.offender("lock-discipline",
+                         "a public function of cbuf.c breaks the locking discipline (takes and releases the "
+                         "buffer's mutex exactly once, never nested) at op `%s`: `%s`" % (s[lk][:80], ans[lk][:160]),
+                         {"flavour": name, "block": bname, "ops": s[:lk + 1], "impl": ans[lk]})
+            continue
+        if ans != sp:
+            found += 1
+            k = next(i for i in range(len(s)) if ans[i] != sp[i])
+            small = shrink(ctx, exe, s, "spec")
+            ctx.offender("fifo-mismatch:" + s[k].split()[0],
+                         "cbuf.c differs from the FIFO specification at op `%s`: impl `%s` spec `%s`" %
+                         (s[k][:80], ans[k][:120], sp[k][:120]),
+                         {"flavour": name, "block": bname, "ops": small, "first_diff_op_in_original": s[k][:200],
+                          "impl": ans[k], "spec": sp[k]})
+        if ans != m:
+            found += 1
+            k = next(i for i in range(len(s)) if ans[i] != m[i])
+            ctx.disagreement("cbuf model vs cbuf.c (%s)" % name,
+                             "op `%s`: impl `%s` model `%s`" % (s[k][:80], ans[k][:120], m[k][:120]),
+                             shrink(ctx, exe, s, "model"))
+    return found
+
+
+# ------------------------------------------------------------------ the deterministic core
+# Runs first in EVERY quick run, identical at every seed.  Each class below answers the question
+# "if a maintainer broke this branch / boundary / error path, which case would notice?".
+
+ALPHA9 = ["write 610a", "write 6263640a65", "write 0a", "read 1", "read 3", "rline 8 1", "rline 3 -1",
+          "drop 2", "wfd -1 780a797a 0"]
+# buffer contents (hex) with newlines at every position relative to the ends
+FILLS = ["-", "61", "610a", "61620a", "0a0a", "610a62", "610a62630a", "6162636465", "0a61620a63"]
+
+
+def hexlen(h):
+    return 0 if h == "-" else len(h) // 2
+
+
+def pat(n, salt=0):
+    """n deterministic bytes (hex), a newline every 7th"""
+    return "".join("0a" if (i + salt) % 7 == 6 else "%02x" % (97 + (i + salt) % 23) for i in range(n)) or "-"
+
+
+def core_ops():
+    """every operation of the public API with boundary arguments: each entry is a list of lines"""
+    ops = []
+    ops += [["write " + h] for h in ("78", "780a", "78790a7a", "0a", "78790a7a770a", "7879797979797979790a")]
+    ops += [["wline " + h] for h in ("-", "78", "780a", "7879797979", "78797979797979797979")]
+    for ln in (-1, 2, 5):
+        for av in ("-", "78", "780a", "780a79", "780a797a7b", "780a797a7b0a7c"):
+            for eof in (0, 1):
+                ops.append(["wfd %d %s %d" % (ln, av, eof)])
+    ops += [["wfd 0 7879 0"], ["wfd -2 7879 0"]]
+    # interrupted system calls at every chunk of the descriptor calls: must be invisible
+    ops += [["eintr 1", "wfd -1 780a79 0"], ["eintr 3", "wfd 5 780a797a7b 1"], ["eintr 2", "wfd 5 78 0"],
+            ["eintr 1", "rfd -1 9"], ["eintr 3", "rfd 9 2"], ["eintr 2", "pfd -1 9"], ["eintr 2", "yfd -1 9"],
+            ["eintr 1", "yfd 2 1"]]
+    for n in (-2, -1, 0, 1, 2, 9):
+        ops += [["read %d" % n], ["peek %d" % n], ["drop %d" % n]]
+    for ln in (-1, 0, 1, 2, 3, 4, 6, 9):
+        for lines in (-2, -1, 0, 1, 2, 3):
+            ops += [["rline %d %d" % (ln, lines)], ["pline %d %d" % (ln, lines)]]
+    for ln in (-1, 0, 1, 3, 9):
+        for lines in (-2, -1, 0, 1, 2):
+            ops.append(["dline %d %d" % (ln, lines)])
+    ops += [["replay %d" % n] for n in (-1, 0, 1, 2, 9)]
+    ops += [["rewind %d" % n] for n in (-2, -1, 0, 1, 2, 9)]
+    for ln in (-2, -1, 0, 2, 9):
+        for cap in (0, 1, 2, 9):
+            ops += [["pfd %d %d" % (ln, cap)], ["rfd %d %d" % (ln, cap)], ["yfd %d %d" % (ln, cap)]]
+    ops += [["rfd -1"], ["flush"], ["opt 0"], ["opt 1"], ["opt 2"], ["opt 3"]]
+    ops += core_ops_lines()
+    return ops
+
+
+def core_ops_lines():
+    """line-level replay side (cbuf_replay_line / cbuf_rewind_line / cbuf_lines_reused)"""
+    return []
+
+
+def wrap_sweep(meta, thin=1):
+    """EVERY op of the public API x EVERY wrap position of a tiny buffer x fill level and newline
+    layout x EVERY overwrite mode.  `rot` bytes are written and read first, so that i_in/i_out
+    stand at cell `rot` and `rot` replayable bytes exist; then the buffer is filled; then the op;
+    then everything is read back and replayed, so a wrong index or counter shows in the data."""
+    ops = core_ops()
+    out = []
+    n = 0
+    for mn, mx, rots in ((3, 3, (0, 1, 2, 3)), (2, 5, (0, 1, 2))):
+        for rot in rots:
+            for fill in FILLS:
+                if hexlen(fill) > mx:
+                    continue
+                for mode in (0, 1, 2):
+                    pre = ["create %d %d %d" % (mn, mx, meta)]
+                    if rot:
+                        pre += ["write " + pat(rot, 3), "read %d" % rot]
+                    pre += ["opt %d" % mode]
+                    if fill != "-":
+                        pre += ["write " + fill]
+                    for op in ops:
+                        n += 1
+                        if n % thin:
+                            continue
+                        out.append(pre + op + ["pline 9 -1", "read 9", "replay 9"])
+    return out
+
+
+def pair_sweep(meta, thin=1):
+    """cbuf_copy / cbuf_move at every wrap position of the source into destinations that must grow,
+    wrap once or wrap many times, in every mode of the destination"""
+    out = []
+    n = 0
+    for rot in (0, 1, 2, 3):
+        for fill in FILLS:
+            if hexlen(fill) > 3:
+                continue
+            for dmn, dmx in ((1, 3), (2, 2), (1, 1)):
+                for dpre in ("-", "7a"):
+                    for mode in (0, 1, 2):
+                        pre = ["create 3 3 %d" % meta]
+                        if rot:
+                            pre += ["write " + pat(rot, 5), "read %d" % rot]
+                        if fill != "-":
+                            pre += ["write " + fill]
+                        pre += ["sel 1", "create %d %d %d" % (dmn, dmx, meta), "opt %d" % mode]
+                        if dpre != "-":
+                            pre += ["write " + dpre]
+                        pre += ["sel 0"]
+                        for k in ("copy", "move"):
+                            for ln in (-2, -1, 0, 1, 2, 9):
+                                n += 1
+                                if n % thin:
+                                    continue
+                                out.append(pre + ["%s %d" % (k, ln), "read 9", "replay 9", "sel 1", "read 9", "replay 9"])
+    return out
+
+
+def growth_core(meta):
+    """sizes around EVERY growth step up to the maximum, in every mode: the buffer is pushed one
+    byte over its free space again and again (memory writes, descriptor writes with short reads,
+    lines), then over the maximum; and the writes whose growth is capped by the maximum while
+    some space was already free (0 < free < len <= growth + free)."""
+    out = []
+    geos = [(2, 5), (3, 12), (10, 30), (10, 999), (10, 1000), (10, 1001), (64, 983), (64, 1983), (64, 2000),
+            (64, 2017), (100, 2999), (1, 3000), (999, 1000), (1000, 1001)]
+    for mn, mx in geos:
+        for mode in (0, 1, 2):
+            for kind in ("write", "wfd", "wline"):
+                g = Guide(mn, mx, meta)
+                g.mode = mode
+                seq = ["create %d %d %d" % (mn, mx, meta), "opt %d" % mode]
+                for step in range(7):
+                    free = g.size - g.used
+                    for d in ((0, 1) if step % 2 == 0 else (1,)):
+                        n = max(1, free + d)
+                        if kind == "write":
+                            seq.append("write " + pat(n, step))
+                            g.wrote(n)
+                        elif kind == "wfd":
+                            # request more than is available: short read, then EAGAIN / EOF
+                            seq.append("wfd %d %s %d" % (n + 3, pat(n, step), step % 2))
+                            g.wrote(n)
+                        else:
+                            seq.append("wline " + pat(max(0, n - 1), step).replace("0a", "2e"))
+                            g.wrote(n)
+                        free = g.size - g.used
+                    seq.append("read 1")
+                    g.took(1)
+                seq += ["pline 99999 -1", "read 99999", "replay 99999"]
+                out.append(seq)
+    # growth capped by the maximum with space already free
+    for mn, mx in ((10, 30), (2, 5), (5, 6), (64, 100), (10, 1005)):
+        for u in (1, mn - 1, mn):
+            for d in (-1, 0, 1, 2):
+                for mode in (0, 1, 2):
+                    n = mx - u + d
+                    if u < 1 or n < 1:
+                        continue
+                    base = ["create %d %d %d" % (mn, mx, meta), "opt %d" % mode, "write " + pat(u)]
+                    out.append(base + ["write " + pat(n, 2), "read 99999", "replay 99999"])
+                    out.append(base + ["wfd %d %s 0" % (n, pat(n, 2)), "read 99999"])
+                    out.append(base + ["wfd %d %s 1" % (n + 2, pat(max(1, n - 1), 2)), "read 99999"])
+                    out.append(base + ["wline " + pat(max(0, n - 1), 2).replace("0a", "2e"), "read 99999"])
+    # a buffer that cannot grow any more, request larger than the free space, descriptor delivers less
+    for size in (3, 8):
+        for u in range(0, size + 1):
+            for req in (size - u + 1, size - u + 2, size + 1, 2 * size + 3):
+                for av in (0, 1, max(1, size - u), size - u + 1):
+                    for mode in (0, 1, 2):
+                        for eof in (0, 1):
+                            seq = ["create %d %d %d" % (size, size, meta), "opt %d" % mode]
+                            if u:
+                                seq.append("write " + pat(u))
+                            seq += ["wfd %d %s %d" % (req, pat(av, 4), eof), "read 99"]
+                            out.append(seq)
+    return out
+
+
+def prod_fill(meta):
+    """the buffer dsh.c creates (64 .. 131072), filled by `cbuf_write_from_fd (.., -1, ..)` through
+    every one of its growth steps up to the maximum and beyond (overwrite), then read back"""
+    seq = ["create 64 131072 %d" % meta]
+    for i in range(136):
+        seq.append("wfd -1 %s 0" % pat(1100, i))
+    seq += ["pline 200000 -1", "rline 70 1", "read 200000", "wfd -1 %s 1" % pat(10), "read 99"]
+    return [seq]
+
+
+def exhaustive_tiny(meta, maxlen=4):
+    """all sequences of length <= maxlen over the 9-op alphabet on a min=2,max=5 buffer, per mode"""
+    import itertools
+    out = []
+    for mode in (0, 1, 2):
+        for n in range(1, maxlen + 1):
+            for combo in itertools.product(ALPHA9, repeat=n):
+                out.append(["create 2 5 %d" % meta, "opt %d" % mode] + list(combo))
+    return out
+
+
+def core_blocks(meta, full):
+    """`full`: the assertion+sanitizer flavour gets everything; the shipped flavour a thinner slice
+    of the two big sweeps (its code differs only in size_meta and the compiled-out assertions)"""
+    return [("core:exhaustive<=4", exhaustive_tiny(meta, 4 if full else 3)),
+            ("core:wrap-sweep", wrap_sweep(meta, 1 if full else 5)),
+            ("core:pair-sweep", pair_sweep(meta, 1 if full else 3)),
+            ("core:growth-steps", growth_core(meta)),
+            ("core:prod-fill", prod_fill(meta))]
 
 
 def shrink(ctx, exe, seq, against):
